@@ -347,12 +347,24 @@ def mon_interrupts(scn, run):
             out.append(V("interrupt-lost", f"{R['comp']} raised an interrupt at real={R['real']} step={R['step']} ({where}) and was never updated afterwards",
                          comp=R["comp"], phase=where, depth=S.depth_map(scn).get(R["comp"])))
             continue
-        spent = sum(costs.get(u["comp"], 0) for u in ups if R["n"] < u["n"] < U["n"])
-        # cost of an update in progress at the time of the raise counts too
+        # the property's bound: the extra delay is at most the duration of the tick in progress
+        # when the interrupt was raised, plus the processing done by the serving tick before it
+        # reaches this device
+        calls = [e for e in tr.of("t-call") if e["tid"] == tid]
+        dones = [e for e in tr.of("t-done") if e["tid"] == tid]
+        inprog = 0
+        end_n = R["n"]
+        for cl in calls:
+            dn = next((d for d in dones if d["n"] > cl["n"]), None)
+            if cl["n"] < R["n"] and (dn is None or dn["n"] > R["n"]):
+                inprog = (dn["real"] if dn else U["real"]) - cl["real"]
+                end_n = dn["n"] if dn else R["n"]
+        if U["n"] < end_n:
+            continue  # served inside the tick in progress
+        spent = sum(costs.get(u["comp"], 0) for u in ups if end_n < u["n"] < U["n"])
         elapsed = U["real"] - R["real"]
-        inprog = max((costs.get(u["comp"], 0) for u in ups if u["n"] < R["n"] and u["real"] + costs.get(u["comp"], 0) > R["real"]), default=0)
         if elapsed > spent + inprog:
-            out.append(V("interrupt-served-late", f"{R['comp']} raised at real={R['real']} ({where}) served at real={U['real']}: {elapsed}ns elapsed, only {spent + inprog}ns of processing",
+            out.append(V("interrupt-served-late", f"{R['comp']} raised at real={R['real']} ({where}) served at real={U['real']}: {elapsed}ns later; tick in progress lasted {inprog}ns, serving tick spent {spent}ns before it",
                          comp=R["comp"], phase=where, depth=S.depth_map(scn).get(R["comp"])))
     return out
 
